@@ -82,6 +82,7 @@ func readAllCut(prop string, data []byte, mode, cutAt int, errAt int, terr error
 		}
 		var fr frame.Frame
 		var err error
+		errsBefore := cr.errs
 		func() {
 			defer func() {
 				if r := recover(); r != nil {
@@ -91,6 +92,7 @@ func readAllCut(prop string, data []byte, mode, cutAt int, errAt int, terr error
 			}()
 			fr, err = rd.Read()
 		}()
+		failedDuring := cr.errs > errsBefore
 		if err != nil && len(err.Error()) > 6 && err.Error()[:6] == "PANIC:" {
 			return res, false
 		}
@@ -102,6 +104,13 @@ func readAllCut(prop string, data []byte, mode, cutAt int, errAt int, terr error
 			r.kind = 0
 		case err != nil && fr == nil && errors.As(err, &perr):
 			r.kind = 1
+			// a transport that fails (not: ends) while a call is waiting for the rest of a frame:
+			// the call reports the transport's own error, it does not pass it off as a parse error
+			if failedDuring && terr != io.EOF {
+				dsim.Failf("reader-total", "%s: the transport failed with %q during the call at offset %d and the call returned the non-fatal parse error %q (chunk mode %d); stream %s",
+					prop, terr, pos, err, mode, hexs(data))
+				return res, false
+			}
 		case err != nil && fr == nil:
 			r.kind = 2
 			if !errors.Is(err, terr) {
@@ -385,6 +394,15 @@ func c05Body() func(h []dsim.Rec) {
 		count("fault:transport-error")
 		if _, ok := readAll("C05", data, 2, at, errInjected, cfg); !ok {
 			return nil
+		}
+		// ... and, for short streams, at every offset (no draw is spent on this)
+		if len(data) <= 160 {
+			for at := 0; at <= len(data); at++ {
+				if _, ok := readAll("C05", data, at%2, at, errInjected, cfg); !ok {
+					return nil
+				}
+			}
+			count("cov:transport-error-at-every-offset")
 		}
 	}
 	if nframes > 0 {
